@@ -61,3 +61,48 @@ inductive Label | required | optional | repeated | none
 def Label.code : Label → Nat | .required => 0 | .optional => 1 | .repeated => 2 | .none => 3
 
 end Pbc
+
+namespace Pbc
+
+/-- `default_value` of a field descriptor -/
+inductive Dflt
+  | none
+  | scalar (bits : BitVec 64)   -- numeric / bool / enum default (low 32 bits for 32-bit types)
+  | str (s : Bytes)             -- static default string
+  | bin (b : Bytes)             -- static ProtobufCBinaryData
+  | emptyStr                    -- &protobuf_c_empty_string (proto3 strings)
+  deriving DecidableEq, Repr, Inhabited
+
+structure FieldDesc where
+  name : String
+  id : Nat
+  label : Label
+  type : PType
+  packed : Bool            -- PROTOBUF_C_FIELD_FLAG_PACKED
+  group : Option Nat       -- oneof group (PROTOBUF_C_FIELD_FLAG_ONEOF), shares case + storage
+  sub : Nat                -- index of the sub-message type (message fields)
+  dflt : Dflt
+  init : Option (BitVec 64) -- value in the generated INIT when it is not the default (enum first value)
+  deriving Repr, Inhabited
+
+structure MsgDesc where
+  name : String
+  fields : List FieldDesc
+  initGeneric : Bool       -- message_init == NULL: `message_init_generic` is used
+  nGroups : Nat
+  deriving Repr, Inhabited
+
+abbrev Schema := List MsgDesc
+
+namespace FieldDesc
+/-- does the field have its own quantifier member (`quantifier_offset ≠ 0`)?
+    repeated: n_x; oneof: x_case; proto2 optional non-pointer types: has_x -/
+def hasQ (f : FieldDesc) : Bool :=
+  f.label == .repeated || f.group.isSome ||
+  (f.label == .optional && f.type != .string && f.type != .message)
+def isOneof (f : FieldDesc) : Bool := f.group.isSome
+end FieldDesc
+
+def Schema.msg (S : Schema) (t : Nat) : MsgDesc := S.getD t default
+
+end Pbc
